@@ -502,3 +502,59 @@ def arg_binding(ctx):
     name while the callee has a parameter of the variable's own name elsewhere (argument inserted / dropped / swapped)."""
     from .common_argsel import arg_binding as run
     run(ctx, ['wallets'], 'the wallet method is called with shifted arguments: keys of another account / witness type / network')
+
+
+@PROP.obligation('C09.public-master-forwarding', canaries=[
+    mut.replace_expr('wallets', 'Wallet.public_master', 'self.key_for_path([], depth, name=name, account_id=account_id, network=network, cosigner_id=self.cosigner_id, witness_type=witness_type)',
+                     'self.key_for_path([], depth, name=name, account_id=account_id, cosigner_id=self.cosigner_id, witness_type=witness_type)', 'account key exported for the default network'),
+])
+def public_master_forwarding(ctx):
+    """Wallet.public_master derives the account key with key_for_path(..., account_id=account_id, network=network, witness_type=...): the
+    account, network and witness type the caller asked for are forwarded, otherwise the account key of the default network / account is
+    exported and a watch-only wallet built from it shows other addresses."""
+    q = 'wallets:Wallet.public_master'
+    fn = ctx.repo.func(q)
+    calls = [c for c in ast.walk(fn) if isinstance(c, ast.Call) and norm(c.func) == 'self.key_for_path']
+    if len(calls) != 1:
+        ctx.undecided('public_master: key_for_path call not found')
+    kw = {k.arg: k.value for k in calls[0].keywords}
+    ctx.saw('key_for_path(%s)' % ', '.join('%s=%s' % (k, norm(v)) for k, v in sorted(kw.items())))
+    for name in ('account_id', 'network', 'witness_type'):
+        if name not in kw:
+            ctx.violate(q, 'key_for_path is called without %s=: the caller\'s %s is ignored' % (name, name), calls[0],
+                        'public_master(network=testnet) of a multi-network wallet returns the bitcoin account key')
+        else:
+            ctx.match(q, 'argument %s of key_for_path' % name, kw[name], name, fn, calls[0])
+
+
+@PROP.obligation('C09.mixed-witness-guard', canaries=[
+    mut.replace_expr('wallets', 'Wallet.keys_for_path', 'not self.main_key or not self.main_key.is_private or self.main_key.depth != 0', 'not self.main_key or not self.main_key.is_private', 'account-level private keys may serve other witness types'),
+])
+def mixed_witness_guard(ctx):
+    """Wallet.keys_for_path refuses another witness type unless the wallet holds a private MASTER key (depth 0): from an account-level key
+    (depth 3 of one purpose) the paths of another purpose cannot be derived. The guard is evaluated for main keys (private, depth 0),
+    (private, depth 3), (public, depth 3) with a different witness type on a non-multisig wallet."""
+    q = 'wallets:Wallet.keys_for_path'
+    fn = ctx.repo.func(q)
+    ifs = [n for n in walk_no_nested(fn) if isinstance(n, ast.If) and n.body and isinstance(n.body[0], ast.Raise) and 'witness' in norm(n.body[0]).lower() and 'witness_type' in norm(n.test)]
+    if len(ifs) != 1:
+        ctx.undecided('keys_for_path: guard against other witness types not found')
+    it = Interp(ctx.repo, 'wallets', self_cls='wallets:Wallet')
+    MK = A(SELF, 'main_key')
+    res = {}
+    for name, priv, depth, exp in (('private master', True, 0, False), ('private account key', True, 3, True), ('public account key', False, 3, True)):
+        st = State(env={'self': S(SELF), 'witness_type': 'legacy'})
+        st.heap[MK] = S(('mk',))
+        st.heap[A(('mk',), 'is_private')] = priv
+        st.heap[A(('mk',), 'depth')] = depth
+        st.heap[A(SELF, 'witness_type')] = 'segwit'
+        st.heap[A(SELF, 'multisig')] = False
+        it.decide = lambda t: True if t == ('mk',) else None
+        v = it.truth(it.eval(ifs[0].test, st), st)
+        res[name] = v if isinstance(v, bool) else show(term(v))[:50]
+        if not isinstance(v, bool):
+            ctx.undecided('keys_for_path: witness-type guard not decidable for %s' % name)
+        if v != exp:
+            ctx.violate(q, 'wallet with a %s, request for another witness type: %s' % (name, 'accepted' if exp else 'refused'), ifs[0],
+                        'a wallet restored from the BIP84 account zprv hands out "legacy" keys that are BIP84 children in another encoding')
+    ctx.saw('request for another witness type refused: %s' % res)
